@@ -155,7 +155,12 @@ class XPathMap(XPathFunction):
     @property
     def source(self) -> str:
         if self._map is None:
-            items = ', '.join(f'{tk.source}:{tv.source}' for tk, tv in zip(self, self._values))
+            # A key that ends with a name needs a space before the colon (otherwise the
+            # colon is read as part of a prefixed name when the source is parsed again).
+            items = ', '.join(
+                f'{k}:{v}' if k[-1:] in '\'")' or k.isdigit() else f'{k} : {v}'
+                for k, v in ((tk.source, tv.source) for tk, tv in zip(self, self._values))
+            )
         else:
             items = ', '.join(f'{k!r}:{v!r}' for k, v in self._map.items())
         return f'map{{{items}}}'
